@@ -276,8 +276,9 @@ class Check:
             'wall_s': round(wall, 2),
             'violations': len(self.violations),
         }
-        os.makedirs(os.path.join(VERIF, 'evidence'), exist_ok=True)
-        json.dump(ev, open(os.path.join(VERIF, 'evidence', self.pid + '.json'), 'w'), indent=1, default=str)
+        edir = os.environ.get('VERIF_EVIDENCE_DIR') or os.path.join(VERIF, 'evidence')      # (development probes write elsewhere)
+        os.makedirs(edir, exist_ok=True)
+        json.dump(ev, open(os.path.join(edir, self.pid + '.json'), 'w'), indent=1, default=str)
         for key, what, w in self.known_hit:
             print("KNOWN-FINDING: property=%s %s [%s]" % (self.pid, what, key))
         for o in obs:
